@@ -1323,7 +1323,9 @@ pub fn mono(genv: GlobalTypeEnv, file: core::File) -> (MonoFile, GlobalMonoEnv) 
         let methods = methods
             .into_iter()
             .map(|(method, mut scheme)| {
-                if !has_tparam(&scheme.ty) {
+                // A signature that mentions `Self` beyond the receiver never reaches a
+                // vtable; collapsing it would create instances like `Opt__Self`.
+                if !has_tparam(&scheme.ty) && scheme.is_dyn_dispatchable() {
                     scheme.ty = m.collapse_type_apps(&scheme.ty);
                 }
                 (method, scheme)
